@@ -356,6 +356,36 @@ fn step(cx: &mut Ctx, op: &Op) -> R {
             cx.fp.tag(5);
             cx.fp.u64(cx.w.model.len() as u64);
             check_agree(&cx.w.cal, &cx.w.model, "Iter")?;
+            // "ordered iteration" is the whole Iterator protocol, not only next(): nth after some next()s and what
+            // follows it, step_by, skip, last, count, size_hint (an iterator may override any of them); positions are
+            // derived from the size of the set, so that nothing is drawn for them
+            let n = cx.w.model.len();
+            if n > 0 {
+                let want: Vec<NaiveDate> = cx.w.model.iter().copied().collect();
+                let (a, k, j) = ((1 + n % 3).min(n), 2 + n % 5, n / 3);
+                let mut it = cx.w.cal.iter();
+                for _ in 0..a {
+                    it.next();
+                }
+                let (lo, hi) = it.size_hint();
+                if lo > n - a || hi.map_or(false, |h| h < n - a) {
+                    return fail("iter_protocol_mismatch", format!("size_hint after {a} items of {n} is ({lo}, {hi:?})"));
+                }
+                let got = it.nth(j);
+                if got != want.get(a + j).copied() {
+                    return fail("iter_protocol_mismatch", format!("iter(): {a} x next() then nth({j}) = {got:?}, the sorted set gives {:?}", want.get(a + j)));
+                }
+                let rest: Vec<NaiveDate> = it.collect();
+                if rest[..] != want[(a + j + 1).min(n)..] {
+                    return fail("iter_protocol_mismatch", format!("iter(): items after {a} x next() and nth({j}) differ from the sorted set ({} items, expected {})", rest.len(), n.saturating_sub(a + j + 1)));
+                }
+                if !cx.w.cal.iter().step_by(k).eq(want.iter().copied().step_by(k)) {
+                    return fail("iter_protocol_mismatch", format!("iter().step_by({k}) differs from the sorted set"));
+                }
+                if cx.w.cal.iter().skip(j).next() != want.get(j).copied() || cx.w.cal.iter().last() != want.last().copied() || cx.w.cal.iter().count() != n {
+                    return fail("iter_protocol_mismatch", format!("iter().skip({j}).next() / last() / count() differ from the sorted set"));
+                }
+            }
             // Debug output is the set of dates (only rendered for small sets)
             if cx.w.model.len() <= 12 {
                 let want = format!("CompactCalendar({{{}}})", cx.w.model.iter().map(|d| format!("{d:?}")).collect::<Vec<_>>().join(", "));
